@@ -172,6 +172,7 @@ def run_cases(ctx: Ctx, cases, tag="C10"):
     bad_sc, errs1 = ctx.eval_cases(tag + "_sc", E.HEADER, sc_terms, "run_case", shard=4, timeout=900)
     bad_fm, errs2 = ctx.eval_cases(tag + "_fm", E.HEADER, [E.fm_term(c, r) for c, r in live], "run_fm", shard=6, timeout=900)
     bad_me, errs3 = ctx.eval_cases(tag + "_me", E.HEADER, [E.me_term(c, r) for c, r in live], "run_me", shard=6, timeout=900)
+    bad_tf, errs4 = ctx.eval_cases(tag + "_tf", E.HEADER, [E.tf_term(c, r) for c, r in live], "run_tf", shard=8, timeout=600)
     details = {}
     if bad_sc:
         sel = bad_sc[:8]
@@ -191,7 +192,7 @@ def run_cases(ctx: Ctx, cases, tag="C10"):
         for i, ptxt in zip(sel, parts):
             details[i] = [(int(a), [int(x) for x in re.findall(r"\d+", b)])
                           for a, b in re.findall(r"\((\d+)(?:%nat)?, \[([^\]]*)\]\)", ptxt)]
-    return results, live, sc_infos, (bad_sc, bad_fm, bad_me), errs1 + errs2 + errs3, details
+    return results, live, sc_infos, (bad_sc, bad_fm, bad_me, bad_tf), errs1 + errs2 + errs3 + errs4, details
 
 
 def sql_stage(ctx: Ctx, live, tag="C10"):
@@ -334,7 +335,7 @@ def features(case, extra):
 
 
 def report(ctx: Ctx, results, live, sc_infos, bads, errs, details):
-    bad_sc, bad_fm, bad_me = bads
+    bad_sc, bad_fm, bad_me, bad_tf = bads
     seen = set()
 
     def once(key):
@@ -386,7 +387,13 @@ def report(ctx: Ctx, results, live, sc_infos, bads, errs, details):
                            "specification": exp, "within_rounding_of_threshold": near,
                            "note": "pairs are indices into case.rows"},
                           features(case, {"claim": "missing_edges_set"}))
-    if errs and not (bad_sc or bad_fm or bad_me):
+    for i in bad_tf:
+        case, res = live[i]
+        if once("tf"):
+            ctx.violation("the TF values used for the comparison are not what the EntryPoints model (adhoc_tf / data_tf with the route "
+                          "priority) computes - harness and model disagree", {"broken": "C10_tf (model TF sources)", "case": case},
+                          features(case, {"claim": "tf_source_model"}), found_input=False)
+    if errs and not (bad_sc or bad_fm or bad_me or bad_tf):
         ctx.violation("correspondence C10 could not be evaluated", {"broken": "C10_x", "errors": errs[:3]}, found_input=False)
 
 
@@ -434,6 +441,8 @@ def run(ctx: Ctx):
     ctx.obligation(f"every entry point's rows = shared scorer on its own TF source ({len(live)} cases)", not bads[0] and not errs)
     ctx.obligation(f"find_matches set = admitted pairs strictly above threshold ({len(live)} cases)", not bads[1] and not errs)
     ctx.obligation(f"missing-edge set = within-cluster pairs minus predictions ({len(live)} cases)", not bads[2] and not errs)
+    ctx.obligation(f"TF values fed to the scorer = adhoc_tf / data_tf of the EntryPoints model with route_priority ({len(live)} cases)",
+                   not bads[3] and not errs)
     nagree, disagreements = 0, []
     for (case, res), infos in zip(live, sc_infos):
         n, bad = cross_check(case, res)
